@@ -172,7 +172,8 @@ def generate(seed, tier="quick", mode=None, child=False, **kw):
             "entry": r.choice(["cli", "cli", "files", "file", "io"]), "k1": k1, "k2": k2, "dims": dims, "nosalt": nosalt,
             "pre": _pre_items(r, o["words"] or [], secrets, r.randint(1, 4), plan_opts=o, addrs=ctx["a4"]),
             "dump": "map" if o["ip"] and r.random() < 0.5 else None,
-            "child_hashseed": r.randint(1, 4_000_000_000) if child else None}
+            "child_hashseed": r.randint(1, 4_000_000_000) if child else None,
+            "child_optimize": r.choice([0, 0, 1, 2]) if child else 0}
     return plan
 
 
@@ -240,7 +241,7 @@ def _exec(plan, dims, salt=None, child=None):
         knobs = dict(knobs, real_set_order=True)
     world = {"disk": disk, "procs": [{"knobs": knobs, "faults": [], "pre": pre, "steps": [step]}]}
     if child is not None:
-        H = core.run_child_world(world, child)
+        H = core.run_child_world(world, child, plan.get("child_optimize", 0))
         h = H["procs"][0]
         h["nsys"] = len(h["trace"])
         return h
@@ -338,7 +339,7 @@ def check(plan):
                 if _view(hd) != v1:
                     culprits.append(d)
         else:
-            culprits = ["real-interpreter(PYTHONHASHSEED)"] + [d for d in dims]
+            culprits = ["real-interpreter(PYTHONHASHSEED%s)" % (", PYTHONOPTIMIZE=%d" % plan["child_optimize"] if plan.get("child_optimize") else "")] + [d for d in dims]
         k, cls, where = _witness(v1, v2)
         label = "+".join(culprits) if culprits else "combination(" + "+".join(dims) + ")"
         if plan["nosalt"] and not culprits:
@@ -390,6 +391,9 @@ def _res(plan, V, probes, steps, digest_items, nontrivial):
 def _gen_c10(r, seed, child=False):
     feats = ["words"] + [f for f in ("pwd", "ip", "as") if r.random() < 0.2]
     o = GC.gen_opts(r, features=feats, cli_safe=True, j9=True)
+    if r.random() < 0.15:
+        # the word list together with --undo (addresses are restored, words are still replaced)
+        o.update(GC.gen_opts(r, features=["ip"], cli_safe=True, j9=True), ip=False, undo=True, pwd=o["pwd"], salt=o["salt"], **{"as": o["as"]})
     style = r.choice(["overlap", "plain", "reserved"])
     words = G.gen_words(r, r.randint(1, 5), G.VOCAB_TEXT)
     if style == "plain":
